@@ -66,16 +66,15 @@ Lemma event_tables_ok_ok : event_tables_ok = true.
 Proof. vm_compute. reflexivity. Qed.
 
 (* ------------------------------------------------------------------------------------ *)
-(* FULL STATEMENT (false of the current code): every lexeme satisfies begin <= end + 1.
-   Refuted by "GET /a /*/": the annotation lexeme has end = begin - 2 (finding F2). *)
+(* regression for finding F2 (fixed in /repo): "/*/" no longer closes the annotation with its
+   own opening star; the input is now an error at the end of the file and every lexeme
+   produced before it is well-formed *)
 Definition f2_input : bytes := bytes_of_string "GET /a /*/".
 
 Definition well_formed (n : Z) (l : lexeme) : bool :=
   (0 <=? lb l) && (le l <? n) && (lb l <=? le l + 1).
 
-Theorem lexeme_wellformed_refuted :
-  exists data l, In l (fst (fst (scan_case data []))) /\
-                 well_formed (Z.of_nat (List.length data)) l = false.
-Proof.
-  exists f2_input, (mkLex LAnnotation 9 7). split; vm_compute; [tauto|reflexivity].
-Qed.
+Theorem f2_regression :
+  forallb (well_formed (Z.of_nat (List.length f2_input))) (fst (fst (scan_case f2_input []))) = true /\
+  match snd (fst (scan_case f2_input [])) with EndErr _ => true | _ => false end = true.
+Proof. split; vm_compute; reflexivity. Qed.
